@@ -253,7 +253,9 @@ def decorate_xr(rng, c, perm_p=0.4, multi_arg=None):
         c["deco"] = {"names": [rng.choice([None, "t2m", "u", "w", "f%d" % i]) for i in range(k)],
                      "attrs": [rng.choice([{}, {"units": "K"}, {"units": "m", "i": i}]) for i in range(k)],
                      "scalar": [rng.choice([0, 6, 12]) for _ in range(k)] if rng.random() < 0.5 else None}
-    if rng.random() < 0.07:
+    if rng.random() < 0.07 and all(math.prod(s) > 0 for s in c["shapes"]):
+        # (not on empty arrays: dask's min/max over a new axis of EMPTY chunked arrays computes an array of another shape
+        # than the one it announces -- a defect of the library, not of the back-end)
         c["chunked"] = [rng.random() < 0.7 for _ in range(k)]
     if c["backend"] == "dataset" and c["form"] == "take" and (c.get("perms") or c.get("labels")):
         c["dim_by"] = "name"        # an integer dim counts in the Dataset's own order of dimensions, which xarray derives from all its variables
